@@ -403,18 +403,18 @@ func fixTransferEncoding(requestMethod string, header Header) ([]string, error) 
 
 	delete(header, "Transfer-Encoding")
 
+	// Like nginx, we only support a single Transfer-Encoding header field,
+	// and only if set to "chunked". This is one of the most security
+	// sensitive surfaces in HTTP/1.1 due to the risk of request smuggling,
+	// so we keep it strict and simple.
+	if len(raw) != 1 {
+		return nil, &badStringError{"too many transfer encodings", strings.Join(raw, ",")}
+	}
+
 	encodings := strings.Split(raw[0], ",")
 	te := make([]string, 0, len(encodings))
-	// TODO: Even though we only support "identity" and "chunked"
-	// encodings, the loop below is designed with foresight. One
-	// invariant that must be maintained is that, if present,
-	// chunked encoding must always come first.
 	for _, encoding := range encodings {
-		encoding = strings.ToLower(strings.TrimSpace(encoding))
-		// "identity" encoding is not recorded
-		if encoding == "identity" {
-			break
-		}
+		encoding = strings.ToLower(strings.Trim(encoding, " \t"))
 		if encoding != "chunked" {
 			return nil, &badStringError{"unsupported transfer encoding", encoding}
 		}
